@@ -651,7 +651,14 @@ impl<'a, 'b> SGen<'a, 'b> {
             vec![]
         };
         let n_ctrl = mods.iter().filter(|m| matches!(m, Modifier::Ctrl(_) | Modifier::NegCtrl(_))).count();
-        let args = if np_given > 0 { Some((0..np_given).map(|_| self.expr_of_inner(&STy::Float(None), 2)).collect()) } else { None };
+        // no parameters: written without a list or, one time in three, with empty parentheses
+        let args = if np_given > 0 {
+            Some((0..np_given).map(|_| self.expr_of_inner(&STy::Float(None), 2)).collect())
+        } else if self.src.chance(1, 3) {
+            Some(vec![])
+        } else {
+            None
+        };
         let operands: Vec<Operand> = (0..nq_given + n_ctrl)
             .map(|i| match only {
                 Some(qs) => Operand::Id(qs[i % qs.len()].clone()),
